@@ -21,6 +21,13 @@ MATES = [  # forced mates that are seen before the iteration reaches their lengt
 ]
 
 
+TERMINATION_CORPUS = [
+    # aspiration loop at a root restricted by searchmoves that is not stored in the table (first version of the D28 repair, seeded/C09-g): never returned
+    ("3R4/2K3k1/3rQ2b/6r1/8/1q5r/5b2/8 b - - 100 37",
+     "depth 4 searchmoves h3h4 d6d4 d6d8 g5g3 b3f3 d6e6 f2h4 h3d3 g7h7 b3a2 b3b2 b3b5 b3c3 g5h5 h3g3 h3c3 d6d3 d6c6 b3b1 h3f3 b3d1 h3h1 g5d5 b3b7 b3d3 f2a7 d6d5 b3b4 d6b6 d6a6 f2c5"),
+]
+
+
 def run(ctx):
     gen.gen(["consts"])
     ok, failed, out = ctx.prove("Props/Properties_C09")
@@ -77,6 +84,11 @@ def run(ctx):
         lim = rng.choice(["depth %d %s" % (d, extra), "%s depth %d" % (extra, d)])
         sessions.append(["go %s | | %s" % (f, lim)])
         meta.append([(f, d, None)])
+    # inputs on which a search once failed to come back (kept as a corpus; each in a session of its own)
+    for f, lim in TERMINATION_CORPUS:
+        sessions.append(["go %s | | %s" % (f, lim)])
+        sub = lim.split("searchmoves ")[1].split() if "searchmoves " in lim else None
+        meta.append([(f, int(lim.split()[1]) if lim.startswith("depth ") else None, sub)])
     # finite time / clock limits terminate on their own
     tl = []
     for _ in range(24 if q else 300):
